@@ -3,6 +3,8 @@ import LexVerif.Spec.ParseInt
 import LexVerif.Proof.RoundTripFlags
 import LexVerif.Proof.RoundTripSpecial
 import LexVerif.Proof.RoundTripValue
+import LexVerif.Proof.RoundTripModel
+import LexVerif.Props.C18
 /-!
 # C08 — what lexical writes, lexical parses back (property theorems)
 
@@ -384,6 +386,79 @@ example :=
 
 example : writerSign {} Format.standard true ++ writeDecimal Format.standard {} [0] 0 {} = [45, 48, 46, 48] := by
   decide +kernel
+
+/-! ## the same, for whatever the buffer-faithful `write_float` model returns -/
+
+/-- **`roundtrip_float_model`** — every completed call of the `WriteFloat::write_float` model (`.done w`: the buffer
+assertion, the format validity assertion and the mixed-radix assertion passed, nothing panicked) on a finite value of
+a decimal format returns a slice that the documented grammar of the same format derives in full as a number with the
+value's sign, the rounded digits and the carried exponent.  Format validity is what `write_float` itself asserts
+(`isValid`, equal to `FormatValid` by C18). -/
+theorem roundtrip_float_model (feats : Features) (f : Fmt) (fmt : Format) (wo : WOpts) (po : POpts) (debug : Bool)
+    (bits : Nat) (ds : List Nat) (sci : Int) (buf : List Nat) (w : Written)
+    (h : writeFloat feats f fmt wo debug bits (ds, sci) buf = .done w)
+    (hfin : f.isSpecial bits = false) (h10 : fmt.mantissaRadix = 10)
+    (ha : OptionsAgree feats fmt wo po) (hin : WriterInput ds sci) (hclear : PrefixClear feats fmt po.dp po.exp) :
+    ∃ l : FloatLit,
+      grammarFloatComplete feats fmt po (w.bytes.take w.len) = .num l (w.bytes.take w.len).length ∧
+      l.neg = f.isNeg bits ∧
+      DigitsForm l.intDigits l.fracDigits l.exp (truncateAndRound ds wo).1
+        (sci + (if (truncateAndRound ds wo).2 then 1 else 0)) := by
+  have hds : 1 ≤ ds.length := by
+    cases ds with
+    | nil => exact absurd rfl hin.ok.ne
+    | cons a b => simp
+  obtain ⟨htext, hvalid, _, _⟩ := writeFloat_done_text feats f fmt wo debug bits ds sci buf w hds ha.nonZero.1 h
+  have hv := (LexVerif.Props.C18.isValid_spec feats fmt.raw).mp hvalid
+  have hnan : f.isNaN bits = false := by simp [Fmt.isNaN, hfin]
+  have hbody : bodyText feats f fmt wo bits ds sci = writeDecimal fmt feats ds sci wo := by
+    simp [bodyText, hfin]
+  have hsign : signText feats f fmt bits = writerSign feats fmt (f.isNeg bits) := by
+    rw [signText_eq, hnan]; simp [writerSign]
+  rw [htext, hbody, hsign]
+  exact roundtrip_float_shape feats fmt wo po ds sci (f.isNeg bits) hv h10 ha hin hclear
+
+/-- **`roundtrip_special_model`** — a completed call on a special value returns a slice the grammar derives as the same
+special value (NaN as NaN; infinity with its sign) -/
+theorem roundtrip_special_model (feats : Features) (f : Fmt) (fmt : Format) (wo : WOpts) (po : POpts) (debug : Bool)
+    (bits : Nat) (ds : List Nat) (sci : Int) (buf : List Nat) (w : Written)
+    (h : writeFloat feats f fmt wo debug bits (ds, sci) buf = .done w) (hds : 1 ≤ ds.length)
+    (hsp : f.isSpecial bits = true) (ha : OptionsAgree feats fmt wo po)
+    (hns : (Syn.of feats fmt).noSpecial = false)
+    (hnn : ∀ c cs, (if f.isNaN bits then wo.nan else wo.inf) = some (c :: cs) → NotNumberStart (Syn.of feats fmt) po c) :
+    grammarFloatComplete feats fmt po (w.bytes.take w.len) =
+      if f.isNaN bits then .nan (w.bytes.take w.len).length
+      else .inf (f.isNeg bits) (w.bytes.take w.len).length := by
+  obtain ⟨htext, hvalid, _, hcfg⟩ := writeFloat_done_text feats f fmt wo debug bits ds sci buf w hds ha.nonZero.1 h
+  have hv := (LexVerif.Props.C18.isValid_spec feats fmt.raw).mp hvalid
+  have hcfg' := hcfg hsp
+  have hbody : bodyText feats f fmt wo bits ds sci = (if f.isNaN bits then wo.nan else wo.inf).getD [] := by
+    unfold bodyText
+    simp only [hsp, not_true_eq_false, if_false]
+    cases f.isNaN bits <;> simp
+  cases hs : (if f.isNaN bits then wo.nan else wo.inf) with
+  | none => exact absurd hs hcfg'
+  | some t =>
+    -- valid options: the string is non-empty
+    have hne : t ≠ [] := by
+      intro ht
+      subst ht
+      cases hn : f.isNaN bits with
+      | true =>
+        rw [hn] at hs; simp only [if_true] at hs
+        rw [ha.nan] at hs
+        rcases optionsError_nan po ha.parseValid _ hs with h' | h' <;> simp at h'
+      | false =>
+        rw [hn] at hs; simp only [Bool.false_eq_true, if_false] at hs
+        rw [ha.inf] at hs
+        rcases optionsError_inf po ha.parseValid _ hs with h' | h' <;> simp at h'
+    obtain ⟨c, cs, rfl⟩ : ∃ c cs, t = c :: cs := by
+      cases t with
+      | nil => exact absurd rfl hne
+      | cons c cs => exact ⟨c, cs, rfl⟩
+    have key := roundtrip_special feats fmt wo po (f.isNaN bits) (f.isNeg bits) c cs hv ha hns hs (hnn c cs hs)
+    rw [htext, hbody, hs, signText_eq]
+    exact key
 
 /-! ## decimal value corollary -/
 
